@@ -12,8 +12,9 @@ import os
 import re
 
 from vf.extract import extract_item, match_brace, ExtractError
-from vf.unit import Unit, _find_all, uniter_collect
+from vf.unit import Unit, _find_all, uniter_collect, drop_capacity_hints, unoption_pred
 from units.openin import slice_loop_body, loop_if_present
+from units.fchain import unfor_zip
 
 HERE = os.path.dirname(os.path.abspath(__file__))
 
@@ -178,6 +179,124 @@ def build():
         ('hint_outputs', 'self.extends_pure(old(self)) && outs_@.len() == sp_dimension::<F>() && coeffs@.len() == k_ && self.has_all(coeffs@) && (forall|k: int| 0 <= k < outs_@.len() ==> ((#[trigger] outs_@[k]) matches Some(e) && self.has(e)))'),
     ])
 
+    # ---------------------------------------------------------------- decompose_ext_to_base_coeffs: the select-provenance shortcut (C05: what `observe_ext` absorbs)
+    ds = u.extract(CB, IMPL, 'decompose_ext_to_base_coeffs', 'CircuitBuilder::decompose_ext_to_base_coeffs[select_path]')
+    m1 = re.search(r'let t_coeffs_opt\b', ds.body)
+    m2 = re.search(r'if t_coeffs_opt\.is_some\(\) \|\| s_coeffs_opt\.is_some\(\) \{', ds.body)
+    if not m1 or not m2 or m2.start() < m1.start():
+        raise ExtractError('lost anchor in decompose_ext_to_base_coeffs[select_path]: the provenance lookups / the guarded block')
+    o_ = ds.body.index('{', m2.end() - 1)
+    c_ = match_brace(ds.body, o_)
+    ds.body = '{\n' + ds.body[m1.start():m2.start()] + ds.body[o_ + 1:c_] + '\n}'
+    ds.rewrites.append(('R13', 'function body := the two provenance lookups + the body of `if t_coeffs_opt.is_some() || s_coeffs_opt.is_some() { .. }` (its condition is a precondition); (b, t, s) = the select source of x are parameters',
+                        'prefix: cache hit, constant fold, the lookup of the select source; suffix: the hint path (slice [hint_path])'))
+    ds.set_sig('R11', 'fn decompose_select_path<BF>(&mut self, x: ExprId, b: ExprId, t: ExprId, s: ExprId) -> Result<Vec<ExprId>, CircuitBuilderError>', sliced=True)
+    ds.rewrite_re('R11', r'self\.ext_recompose_coeffs\.get\(&(\w+)\)\.cloned\(\)', r'self.prov_coeffs(\1)', min_count=0)
+    ds.rewrite_re('R11', r'self\.decompose_ext_to_base_coeffs::<BF>\((\w+)\)', r'self.decompose_full::<BF>(\1)', min_count=0)
+    ds.rewrite_re('R9', r'debug_assert_eq!\(([^,;]+), F::DIMENSION\);', r'assert(\1 == sp_dimension::<F>());', min_count=0)
+    ds.rewrite_re('R11', r'\bF::DIMENSION\b', 'F::dimension()')
+    ds.rewrite_re('R11', r'self\.recompose_base_coeffs_to_ext_with_coeff_lookups::<BF>\(&coeffs\)', 'self.recompose_base_coeffs_to_ext_impl::<BF>(coeffs.as_slice(), RecomposeMode::NpoWithCoeffLookups)', min_count=0)
+    drop_capacity_hints(ds)
+    ds.rewrite_re('R7', r'let mut coeffs = Vec::new\(\);', 'let mut coeffs: Vec<ExprId> = Vec::new();', min_count=0)
+    unfor_zip(ds)
+    unoption_pred(ds)
+    VB = 'old(self).val(b)'
+    ds.requires('allocated', 'old(self).has(x) && old(self).has(b) && old(self).has(t) && old(self).has(s)')
+    ds.requires('x_is_the_select_of_its_recorded_source', f'({VB} == F::fone() ==> old(self).val(x) == old(self).val(t)) && ({VB} == F::fzero() ==> old(self).val(x) == old(self).val(s))')
+    ds.requires('one_branch_has_provenance', 'old(self).prov_of(t) is Some || old(self).prov_of(s) is Some')
+    ds.ensures('frame', 'ret matches Ok(c) ==> final(self).extends(old(self)) && c@.len() == sp_dimension::<F>() && final(self).has_all(c@)')
+    ds.ensures('for_a_boolean_selector_the_coefficients_recompose_to_x_and_are_base_field_elements',
+               f'ret matches Ok(c) ==> (final(self).sat@ && ({VB} == F::fone() || {VB} == F::fzero()) ==> packv(final(self).vals_of(c@), c@.len() as int) == old(self).val(x) && all_base(final(self).vals_of(c@)))')
+    ZL = 'for fz_ in 0..n_fz_'
+    if ZL in ds.body and 'let saved_ctl' in ds.body:
+        A1, A2, A3 = r'(self\.recompose_coeff_ctl_for_decompose_links = false;)', r'(let t_coeffs = )', r'(let s_coeffs = )'
+        if all(re.search(a_, ds.body) for a_ in (A1, A2, A3)):
+            ds.rewrite_re('SPEC', A1, r'let ghost tco = t_coeffs_opt; let ghost sco = s_coeffs_opt; \1 let ghost b_c = *self;')
+            ds.rewrite_re('SPEC', A3, r'let ghost b_t = *self; \1')
+            CHAIN = '''
+            // old -> b_c (flag cleared: same values, constraints, taint) -> b_t (true branch decomposed or cached) -> b_s (false branch) -> self (flag restored)
+            assert(b_c.extends_pure(old(self)) || (b_c.vals == old(self).vals && b_c.sat == old(self).sat && b_c.bnd == old(self).bnd));
+            assert(b_t.extends(&b_c)); assert(b_s.extends(&b_t));
+            assert forall|e: ExprId| #[trigger] old(self).has(e) implies self.has(e) && self.val(e) == old(self).val(e) by { assert(b_c.has(e)); assert(b_t.has(e)); assert(b_s.has(e)); }
+            assert forall|e: ExprId| #[trigger] old(self).bound(e) implies self.bound(e) by { assert(b_c.bound(e)); assert(b_t.bound(e)); assert(b_s.bound(e)); }
+            assert(tcs.len() == sp_dimension::<F>() && b_t.has_all(tcs) && (b_t.sat@ ==> packv(b_t.vals_of(tcs), tcs.len() as int) == old(self).val(t) && all_base(b_t.vals_of(tcs)))) by {
+                if tco is Some { assert(b_t.vals_of(tcs) =~= old(self).vals_of(tcs)) by { assert forall|k: int| 0 <= k < tcs.len() implies b_t.val(#[trigger] tcs[k]) == old(self).val(tcs[k]) by { assert(old(self).has(tcs[k])); assert(b_c.has(tcs[k])); } }
+                                   assert forall|k: int| 0 <= k < tcs.len() implies b_t.has(#[trigger] tcs[k]) by { assert(old(self).has(tcs[k])); assert(b_c.has(tcs[k])); } }
+            }
+            assert(scs.len() == sp_dimension::<F>() && b_s.has_all(scs) && (b_s.sat@ ==> packv(b_s.vals_of(scs), scs.len() as int) == old(self).val(s) && all_base(b_s.vals_of(scs)))) by {
+                if sco is Some { assert(b_s.vals_of(scs) =~= old(self).vals_of(scs)) by { assert forall|k: int| 0 <= k < scs.len() implies b_s.val(#[trigger] scs[k]) == old(self).val(scs[k]) by { assert(old(self).has(scs[k])); assert(b_c.has(scs[k])); assert(b_t.has(scs[k])); } }
+                                   assert forall|k: int| 0 <= k < scs.len() implies b_s.has(#[trigger] scs[k]) by { assert(old(self).has(scs[k])); assert(b_c.has(scs[k])); assert(b_t.has(scs[k])); } }
+                else { assert(b_t.val(s) == old(self).val(s)) by { assert(b_c.has(s)); } }
+            }
+            assert(self.vals_of(tcs) =~= b_t.vals_of(tcs)) by { assert forall|k: int| 0 <= k < tcs.len() implies self.val(#[trigger] tcs[k]) == b_t.val(tcs[k]) by { assert(b_t.has(tcs[k])); } }
+            assert(self.vals_of(scs) =~= b_s.vals_of(scs));
+            assert(self.has_all(tcs)) by { assert forall|k: int| 0 <= k < tcs.len() implies self.has(#[trigger] tcs[k]) by { assert(b_t.has(tcs[k])); } }
+'''
+            ds.rewrite_re('SPEC', r'(self\.recompose_coeff_ctl_for_decompose_links = saved_ctl;)', r'let ghost b_s = *self; \1')
+        else:
+            CHAIN = ''
+        ds.before('let n_fz_ =', '''let ghost b_l = *self; let ghost tcs = t_coeffs@; let ghost scs = s_coeffs@; let ghost vb = old(self).val(b);
+        proof {''' + CHAIN + '''
+            assert(self.extends(old(self)));
+            assert(tcs.len() == sp_dimension::<F>() && scs.len() == sp_dimension::<F>() && self.has_all(tcs) && self.has_all(scs)); // @@A:both_branches_have_D_allocated_coefficients
+            assert(self.sat@ ==> packv(self.vals_of(tcs), tcs.len() as int) == old(self).val(t) && all_base(self.vals_of(tcs))); // @@A:true_branch_coefficients_recompose_to_t
+            assert(self.sat@ ==> packv(self.vals_of(scs), scs.len() as int) == old(self).val(s) && all_base(self.vals_of(scs))); // @@A:false_branch_coefficients_recompose_to_s
+        }''')
+        ds.at_loop_end(ZL, '''proof {
+                let k = fz_ as int;
+                assert(b_l.has(tcs[k]) && b_l.has(scs[k]));
+                assert forall|q: int| 0 <= q < coeffs@.len() implies self.has(#[trigger] coeffs@[q]) && (vb == F::fone() ==> self.val(coeffs@[q]) == b_l.val(tcs[q])) && (vb == F::fzero() ==> self.val(coeffs@[q]) == b_l.val(scs[q])) by {
+                    if q < k { assert(coeffs@[q] == cf0[q]); assert(bb_.has(cf0[q])); }
+                }
+            }''')
+        lo = ds._loop_open(ZL)
+        ds.body = ds.body[:lo + 1] + ' let ghost cf0 = coeffs@; let ghost bb_ = *self;' + ds.body[lo + 1:]
+        ds.loop(ZL, invariants=[
+            ('frame', 'self.extends_pure(&b_l) && b_l.extends(old(self)) && tcs == t_coeffs@ && scs == s_coeffs@ && n_fz_ == tcs.len() && tcs.len() == scs.len() && b_l.has_all(tcs) && b_l.has_all(scs) && b_l.has(b) && vb == b_l.val(b) && vb == old(self).val(b)'),
+            ('coefficient_k_is_the_select_of_the_branch_coefficients', '''coeffs@.len() == fz_ && forall|q: int| 0 <= q < fz_ ==> self.has(#[trigger] coeffs@[q])
+                    && (vb == F::fone() ==> self.val(coeffs@[q]) == b_l.val(tcs[q])) && (vb == F::fzero() ==> self.val(coeffs@[q]) == b_l.val(scs[q]))'''),
+        ])
+        ds.rewrite_re('SPEC', r'(return Ok\(coeffs\);)', r'''proof {
+            let cs = coeffs@;
+            assert(self.has_all(cs)) by { assert forall|q: int| 0 <= q < cs.len() implies self.has(#[trigger] cs[q]) by { assert(b_e.has(cs[q])); } }
+            if self.sat@ && (vb == F::fone() || vb == F::fzero()) {
+                let src = if vb == F::fone() { tcs } else { scs };
+                F::zero_ne_one();
+                assert(self.vals_of(cs) =~= b_l.vals_of(src)) by { assert forall|q: int| 0 <= q < cs.len() implies self.val(#[trigger] cs[q]) == b_l.val(src[q]) by { assert(b_e.has(cs[q])); assert(b_e.val(cs[q]) == b_l.val(src[q])); } }
+                assert(b_l.sat@);
+            }
+        }
+        \1''')
+        ds.rewrite_re('SPEC', r'(if saved_ctl \{)', r'let ghost b_e = *self; \1')
+    u.text('''verus! {
+impl<F: Field> CircuitBuilder<F> {
+    /// the provenance cache entry of e (contents of ext_recompose_coeffs are not modelled: an uninterpreted function of the builder and e)
+    pub uninterp spec fn prov_of(&self, e: ExprId) -> Option<Seq<ExprId>>;
+    /// ASSUMED invariant of the provenance cache (maintained by recompose / decompose / connect, not proved here): a cached entry of an allocated e
+    /// holds D allocated coefficient targets that, in every accepted proof, recompose to e and are base-field elements
+    #[verifier::external_body]
+    pub fn prov_coeffs(&self, e: ExprId) -> (r: Option<Vec<ExprId>>)
+        ensures (r matches Some(c) ==> self.prov_of(e) == Some(c@)) && (r is None ==> self.prov_of(e) is None),
+                r matches Some(c) ==> c@.len() == sp_dimension::<F>() && self.has_all(c@) && (self.sat@ ==> packv(self.vals_of(c@), c@.len() as int) == self.val(e) && all_base(self.vals_of(c@)))
+    { unimplemented!() }
+    /// the whole function, recursively: its contract is the conjunction of what the slices [hint_path] and [select_path] prove (cache hit and constant fold return cached / constant coefficients)
+    #[verifier::external_body]
+    pub fn decompose_full<BF>(&mut self, x: ExprId) -> (ret: Result<Vec<ExprId>, CircuitBuilderError>)
+        requires old(self).has(x)
+        ensures final(self).recompose_coeff_ctl_for_decompose_links == old(self).recompose_coeff_ctl_for_decompose_links,
+                ret matches Ok(c) ==> final(self).extends(old(self)) && c@.len() == sp_dimension::<F>() && final(self).has_all(c@)
+                    && (final(self).sat@ ==> packv(final(self).vals_of(c@), c@.len() as int) == old(self).val(x) && all_base(final(self).vals_of(c@)))
+    { unimplemented!() }
+    /// contract PROVED in unit `gad` (same clauses); assumed here
+    #[verifier::external_body]
+    pub fn select(&mut self, b: ExprId, t: ExprId, s: ExprId) -> (ret: ExprId)
+        requires old(self).has(b) && old(self).has(t) && old(self).has(s)
+        ensures final(self).extends_pure(old(self)), final(self).has(ret),
+                old(self).val(b) == F::fone() ==> final(self).val(ret) == old(self).val(t),
+                old(self).val(b) == F::fzero() ==> final(self).val(ret) == old(self).val(s)
+    { unimplemented!() }
+}
+}''')
     u.text('''verus! {
 /// the kind of an expression node (only asked about, never computed here)
 pub enum ExprKind { Const, Public, PrivateInput, Other }
@@ -189,5 +308,6 @@ pub fn expr_kind_is<F: Field>(cb: &CircuitBuilder<F>, x: ExprId, k: ExprKind) ->
     u.emit(rv, vis='pub')
     u.emit(ri, vis='pub')
     u.emit(de, vis='pub')
+    u.emit(ds, vis='pub')
     u.text('}\n}')
     return u
